@@ -69,21 +69,22 @@ _guard_hits = [0]
 
 
 def guarded(fn, seconds=2):
-    """Run fn() with a wall-clock guard (the real mpf2expansion loops forever on NaN).
+    """Run fn() with a CPU-time guard (the real mpf2expansion loops forever on NaN).
     Every legitimate call returns within milliseconds; after a few hits the guard is shortened so
     that a change making many inputs diverge cannot blow the time budget."""
     if _guard_hits[0] >= 3:
         seconds = 0.3
-    old = signal.signal(signal.SIGALRM, _alarm)
-    signal.setitimer(signal.ITIMER_REAL, seconds)
+    # CPU time of this process (ITIMER_PROF), not wall-clock time: a loaded machine must not look like divergence
+    old = signal.signal(signal.SIGPROF, _alarm)
+    signal.setitimer(signal.ITIMER_PROF, seconds)
     try:
         return fn()
     except NonTermination:
         _guard_hits[0] += 1
         raise
     finally:
-        signal.setitimer(signal.ITIMER_REAL, 0)
-        signal.signal(signal.SIGALRM, old)
+        signal.setitimer(signal.ITIMER_PROF, 0)
+        signal.signal(signal.SIGPROF, old)
 
 
 def show_q(q):
